@@ -486,8 +486,23 @@ def rare_shape_program(rnd):
     """Small programs in which defeat is used in exactly one unusual place, so that
     whole-program conditions (no try/stop anywhere, no statement-level defeat call,
     no preempt ...) can hold.  -> (prog, argv)"""
-    shape = rnd.randrange(7)
+    shape = rnd.randrange(9)
     k = rnd.randrange(1, 4)
+    if shape >= 7:
+        # code-generation order: the defeat function is first reached from a try/undo (or from a
+        # you-function without any try/stop) and only later called under a try/stop elsewhere
+        first_kind, second_kind = ('undo', 'stop') if shape == 7 else ('stop', 'undo')
+        chk = func('empty', '!check', [('int', 'x')], write(C('c')), ex(call('!truth_is_defeat', bin_('>', V('x'), I(2)))))
+        second = func('empty', '@second', [('int', 'x')],
+                      try_(block(write(C('s')), ex(call('!check', V('x'))), write(C('k'))), second_kind,
+                           block(write(C('h')))), write(C('e')))
+        main = func('empty', '@is_you', [('int', 'q')],
+                    try_(block(ex(call('!check', bin_('-', V('q'), I(rnd.choice((0, 10)))))), write(C('a'))),
+                         first_kind, block(write(C('u')))),
+                    ex(call('@second', V('q'))), ex(call('@second', bin_('-', V('q'), I(3)))), write(C('z')))
+        fs = [chk, second, main]
+        rnd.shuffle(fs)
+        return prog([], fs), [str(rnd.randrange(0, 7))]
     cond = bin_('>=', V('i'), V('lim'))
     if shape == 0:      # defeat only in the continuation clause of a for loop
         body = [('for', decl('int', 'i', I(0)), bin_('<', V('i'), I(k + 2)),
